@@ -189,6 +189,7 @@ class Flow:
 
 
 _FLOWS: Dict[int, Flow] = {}
+_CALLEE_VALUES: Dict[tuple, Optional[ast.AST]] = {}
 
 
 def flow_of(func: Func) -> Flow:
@@ -235,6 +236,10 @@ class Expander:
                 new = copy.copy(e)
                 new.value = self._x(e.value, at, depth, seen, stop)
                 return new
+            if d is None and isinstance(e, ast.Name) and not self.flow.defs_of(e.id):
+                mc = self._module_constant(e.id)
+                if mc is not None:
+                    return mc
             return copy.deepcopy(e)
         if isinstance(e, ast.Call):
             new = ast.Call(func=self._xfunc(e.func, at, depth, seen, stop),
@@ -295,16 +300,96 @@ class Expander:
             return new
         return copy.deepcopy(fn)
 
+    def _module_constant(self, name: str) -> Optional[ast.AST]:
+        """value of a module level constant (single top-level assignment of a literal / datetime(..) / timedelta(..))"""
+        p = self.func
+        while p is not None:
+            if name in p.params:
+                return None
+            p = p.parent
+        m = self.func.module
+        hits = [st for st in m.tree.body if isinstance(st, (ast.Assign, ast.AnnAssign)) and
+                any(isinstance(t, ast.Name) and t.id == name for t in (st.targets if isinstance(st, ast.Assign) else [st.target]))]
+        if len(hits) != 1 or hits[0].value is None:
+            return None
+        v = hits[0].value
+
+        def const_like(x):
+            if isinstance(x, ast.Constant):
+                return True
+            if isinstance(x, ast.UnaryOp):
+                return const_like(x.operand)
+            if isinstance(x, ast.BinOp):
+                return const_like(x.left) and const_like(x.right)
+            if isinstance(x, ast.Call) and isinstance(x.func, ast.Name) and x.func.id in ('datetime', 'timedelta'):
+                return all(const_like(a) for a in x.args) and all(const_like(k.value) for k in x.keywords)
+            return False
+        return copy.deepcopy(v) if const_like(v) else None
+
+    def _callee_value(self, tgt: Func, depth: int) -> Optional[ast.AST]:
+        """the value a helper returns as ONE expression over its parameters: straight-line assignments are substituted and
+        `if c: return a` / `else` chains become conditional expressions; loops, raises, with/try make it non-inlinable"""
+        if isinstance(tgt.node, ast.Lambda):
+            return copy.deepcopy(tgt.node.body)
+        key = ('cv', id(tgt.node))
+        cache = _CALLEE_VALUES
+        if key in cache:
+            return copy.deepcopy(cache[key]) if cache[key] is not None else None
+        cache[key] = None
+        sub = Expander(self.prog, tgt, self.typer, inline=True, max_depth=self.max_depth)
+        fl = sub.flow
+
+        def harmless(st):
+            if isinstance(st, ast.Expr):
+                v = st.value
+                if isinstance(v, ast.Constant):
+                    return True
+                # logging / print calls
+                if isinstance(v, ast.Call) and isinstance(v.func, ast.Attribute) and isinstance(v.func.value, ast.Name) and \
+                        v.func.value.id in ('logging', 'logger', 'log', '_log', '_logger', 'LOG'):
+                    return True
+                return False
+            if isinstance(st, (ast.Assign, ast.AnnAssign)):
+                tg = st.targets if isinstance(st, ast.Assign) else [st.target]
+                return all(isinstance(t, ast.Name) for t in tg)
+            return isinstance(st, ast.Pass)
+
+        def build(stmts, d):
+            if d > 6:
+                return None
+            for i, st in enumerate(stmts):
+                if isinstance(st, ast.Return):
+                    if st.value is None:
+                        return ast.Constant(value=None)
+                    return sub.expand(st.value, fl.cfg.node_of(st), depth + 1)
+                if isinstance(st, ast.If):
+                    then = build(st.body, d + 1)
+                    if then is None:
+                        return None
+                    rest = build(list(st.orelse) + list(stmts[i + 1:]), d + 1)
+                    if rest is None:
+                        return None
+                    test = sub.expand(st.test, fl.cfg.node_containing(st.test), depth + 1)
+                    return ast.IfExp(test=test, body=then, orelse=rest)
+                if harmless(st):
+                    continue
+                return None
+            return None
+        v = build(list(tgt.body), 0)
+        cache[key] = v
+        return copy.deepcopy(v) if v is not None else None
+
     def _inline(self, orig: ast.Call, new: ast.Call, depth: int) -> Optional[ast.AST]:
-        """inline calls to package helpers whose body is `return <expr>` (after an optional docstring)"""
+        """inline calls to package helpers whose result is one expression over their parameters (see _callee_value)"""
         if self.typer is None or depth > self.max_depth:
             return None
         tgt = self._single_target(orig)
         if tgt is None:
             return None
-        body = [s for s in tgt.body if not (isinstance(s, ast.Expr) and isinstance(s.value, ast.Constant))]
-        if len(body) != 1 or not isinstance(body[0], ast.Return) or body[0].value is None:
+        value = self._callee_value(tgt, depth)
+        if value is None:
             return None
+        body = [ast.Return(value=value)]
         params = list(tgt.params)
         args = list(new.args)
         if tgt.kind in ('method', 'getter', 'setter'):
@@ -312,11 +397,15 @@ class Expander:
             if recv is None:
                 return None
             args = [recv] + args
-        if any(isinstance(a, ast.Starred) for a in args) or new.keywords:
+        if any(isinstance(a, ast.Starred) for a in args) or any(k.arg is None for k in new.keywords):
             return None
         if len(args) > len(params):
             return None
         sub = dict(zip(params, args))
+        for k in new.keywords:
+            if k.arg not in params or k.arg in sub:
+                return None
+            sub[k.arg] = k.value
         # defaults for missing parameters
         a = tgt.node.args
         defaults = dict(zip([x.arg for x in a.args][-len(a.defaults):], a.defaults)) if a.defaults else {}
